@@ -315,8 +315,8 @@ fn main() {
             }
             // the certificate signed another epoch / another root
             for (tag, key) in [("sd-signed-other-epoch", K::CardanoStakeDistributionEpoch), ("sd-signed-other-root", K::CardanoStakeDistributionMerkleRoot), ("sd-signed-other-avk", K::NextAggregateVerificationKey)] {
+                let sgn = alter(&mut rng, &signed, key); // before the replay filter: every run draws the same numbers
                 if !sink.wanted() { sink.skip(); continue; }
-                let sgn = alter(&mut rng, &signed, key);
                 let msg = CardanoStakeDistribution { epoch: Epoch(sd_epoch), hash: "sd-hash".into(), certificate_hash: "cert".into(), stake_distribution: sd.clone().into_iter().collect(), created_at: Default::default() };
                 let cert = certificate(&pm_of(&signed), &pm_of(&sgn).compute_hash());
                 let rebuilt = builder.compute_cardano_stake_distribution_message(&cert, &msg).unwrap();
